@@ -20,3 +20,9 @@ META["C03"] = {
     "note": "Trusts the deviation/leniency catalogue written from the statement and docs; unique header names; no detail reordering; first-payload-only request-info comparison as documented in the code.",
     "technique": "property-based metamorphic testing (rapid) + enumeration of corpus expectations x deviations",
 }
+
+META["C09"] = {
+    "text": "Round-trip and fault-injection testing of the length-prefixed and JSON stream framing: generated message sequences through readers with constructed Read boundaries, truncation points, oversize prefixes and stalls; the oracle is exact round trip plus the documented end-of-input / unexpected-end / size-limit / timeout-progress behaviour. Exploration by seeded generation with shrinking.",
+    "note": "Stall timing is asserted one-sided (>= timeout) with generous upper bounds; zero-length Reads never block; codec stream decoders have no size limit by design.",
+    "technique": "property-based round-trip and fault-injection testing (rapid)",
+}
